@@ -1761,7 +1761,9 @@ def _guard(ctx, leg, spec, fn, extra=None):
         inside = last.startswith(paths.REPO) and "harness" not in last
         if not inside and not any(f.filename.startswith(paths.REPO + "/pde") for f in tb):
             raise
-        case = dict({"leg": leg, "grid": spec}, **(extra or {}), crash=True)
+        case = {"leg": leg, "grid": spec}
+        case.update(extra or {})
+        case["crash"] = True
         ctx.count(case, nontrivial=False, leg="crash")
         ctx.monitor_evals += 1
         where = next((f for f in reversed(tb) if f.filename.startswith(paths.REPO)), tb[-1])
@@ -1953,6 +1955,7 @@ def _replay_case(sub, P, c, rng):
         leg_equality(sub, P, spec, rng, pair=(c["kind"], c["other"]))
     elif leg == "malformed-grid":
         if c.get("crash"):
+            sub.monitor_evals += 1
             build(spec).state     # the only real-code calls of this leg outside try/except
             return
         _need(c, "tamper", "tree", "via")
@@ -1963,6 +1966,7 @@ def _replay_case(sub, P, c, rng):
     elif leg == "malformed-field":
         _need(c, "field")
         if c.get("crash"):
+            sub.monitor_evals += 1
             build_field(c["field"], build(c["field"]["grid"]), c.get("salt", 0)).attributes_serialized
             return
         _need(c, "tamper", "tam")
@@ -1973,6 +1977,7 @@ def _replay_case(sub, P, c, rng):
     elif leg == "malformed-collection":
         _need(c, "collection")
         if c.get("crash"):
+            sub.monitor_evals += 1
             build_collection(c["collection"], c.get("salt", 0)).attributes_serialized
             return
         _need(c, "tamper", "tam")
